@@ -153,8 +153,7 @@ class Sym:
         return bool(SymB(s.t != 0))
 
     def __float__(s):
-        # only reached through float.__new__ of a float subclass (DECAngle): payload poisoned on purpose
-        return float('nan')
+        raise EngineError('builtin float() of a symbol (numpy float array store, or an unshimmed namespace)')
 
     def __int__(s):
         raise EngineError('int() of a symbol outside a shimmed module namespace')
@@ -356,7 +355,7 @@ class _IntMeta(type):
         return builtins.int(x, *a)
 
     def __instancecheck__(cls, o):
-        return isinstance(o, builtins.int)
+        return isinstance(o, (builtins.int, SymInt))
 
     def __eq__(cls, o):
         return o is cls or o is builtins.int
@@ -374,3 +373,52 @@ class SInt(metaclass=_IntMeta):
 
 def real(name):
     return Sym(z3.Real(name))
+
+
+class SymInt(Sym):
+    """a symbol known to be an integer (precondition carries is_int); isinstance(x, int) holds in shimmed namespaces"""
+    __slots__ = ()
+
+
+def integer(name):
+    return SymInt(z3.Real(name))
+
+
+def is_int(t):
+    return t == z3.ToReal(z3.ToInt(t))
+
+
+class SymList(list):
+    """a module-level table indexed by a symbol: element = uninterpreted ELEM_<name>(index); every symbolic access is
+    recorded with its path condition so that `0 <= index < len` becomes an obligation"""
+
+    def __init__(s, data, name):
+        list.__init__(s, data)
+        s.name = name
+        s.accesses = []
+        s.fn = z3.Function('ELEM_' + name, R, R)
+
+    def __getitem__(s, i):
+        if isinstance(i, Sym):
+            s.accesses.append((i.t, list(ctx.pc)))
+            return Sym(s.fn(i.t))
+        return list.__getitem__(s, i)
+
+
+class NPProxy:
+    """stands for `np` in a repo module namespace: real numpy, except that freshly allocated zero arrays are object
+    arrays so that symbolic scalars can be stored (A5; cross-checked against real numpy on every run)"""
+
+    def __init__(s, np):
+        s.__dict__['_np'] = np
+
+    def __getattr__(s, k):
+        return getattr(s._np, k)
+
+    def zeros(s, shape, dtype=None, **kw):
+        a = s._np.empty(shape, dtype=object)
+        a.fill(0.0)
+        return a
+
+    def array(s, obj, *a, **kw):
+        return s._np.array(obj, *a, **kw)
